@@ -381,15 +381,8 @@ def get_key_function(collation: Optional[str] = None,
 
     def compare_func(obj1: Any, obj2: Any) -> int:
         if key_func is not None:
-            if isinstance(obj1, list):
-                obj1 = map(key_func, obj1)
-            else:
-                obj1 = key_func(obj1)
-
-            if isinstance(obj2, list):
-                obj2 = map(key_func, obj2)
-            else:
-                obj2 = key_func(obj2)
+            obj1 = key_func(obj1)
+            obj2 = key_func(obj2)
 
         return deep_compare(obj1, obj2, collation, token)
 
